@@ -33,8 +33,35 @@ def _crystal(number, choice, frac=None, cell=None, occ=None):
     return Crystal(uc, SpaceGroup(number, choice), AsymmetricUnit(els, frac, labels=labels, **kw), titl="xtal")
 
 
+def _cell_params(uc):
+    """lengths and angles (degrees) computed from the lattice vectors, independently of UnitCell.parameters"""
+    D = np.asarray(uc.direct, float)
+    l = np.linalg.norm(D, axis=1)
+    ang = [np.degrees(np.arccos(np.clip(np.dot(D[i], D[j]) / (l[i] * l[j]), -1, 1))) for i, j in ((1, 2), (0, 2), (0, 1))]
+    return np.r_[l, ang]
+
+
+def replay_params(data):
+    """UnitCell.parameters reports the lengths and angles of the cell (values nearly equal to each other may be snapped together,
+    by less than 2e-6 = the resolution the writers print)"""
+    from chmpy.crystal import UnitCell
+    bad = []
+    cells = [(data["lengths"], data["angles"])] if data.get("lengths") else []
+    cells += [([15.0, 15.0001, 14.9999], [90.0, 90.0005, 90.0]), ([7.0, 7.00002, 9.0], [89.9995, 90.0, 120.0]), ([10.0, 10.0, 10.0], [90.0, 90.0, 90.0])]
+    for lengths, angles in cells:
+        uc = UnitCell.from_lengths_and_angles(list(lengths), list(angles), unit="degrees")
+        got = np.asarray(uc.parameters, float)
+        want = np.r_[lengths, angles]
+        if np.abs(got - want).max() > 2e-6:
+            bad.append("cell %s %s reports parameters %s" % (list(lengths), list(angles), np.round(got, 7).tolist()))
+    return bool(bad), bad[:2]
+
+
 def _same(a, b, prec, fmt):
     bad = []
+    pa_, pb_ = _cell_params(a.unit_cell), _cell_params(b.unit_cell)
+    if not np.allclose(pa_, pb_, atol=2.5e-6):
+        bad.append("%s: cell (from its lattice vectors) %s read back as %s" % (fmt, np.round(pa_, 6).tolist(), np.round(pb_, 6).tolist()))
     if a.space_group.international_tables_number != b.space_group.international_tables_number:
         bad.append("%s: space group %d read back as %d" % (fmt, a.space_group.international_tables_number, b.space_group.international_tables_number))
     if sorted(int(o.integer_code) for o in a.space_group.symmetry_operations) != sorted(int(o.integer_code) for o in b.space_group.symmetry_operations):
@@ -120,7 +147,7 @@ def replay_setting(data):
     return bool(bad), bad
 
 
-REPLAY = {"rt": replay_setting}
+REPLAY = {"rt": replay_setting, "params": replay_params}
 
 
 def run(ctx):
@@ -138,7 +165,7 @@ def run(ctx):
     ctx.out_of_scope("labels that collide with SHELX keywords; occupancies in .res (the format written here does not carry them); unit-cell merging of coincident sites (C01)")
     groups = [(1, ""), (14, ""), (48, "1"), (148, "H")] + ([(33, ""), (227, "1"), (2, ""), (19, ""), (61, ""), (88, "1"), (167, "R")] if thorough else [])
     wides = [(0, 0), (1, 2)] if not thorough else [(i, k) for i in range(2) for k in range(3)]
-    secs = [("table", part_table)]
+    secs = [("table", part_table), ("parameters", part_parameters)]
     for g in groups:
         for w in (wides if g in ((1, ""), (14, "")) else wides[:1]):
             secs.append(("symbolic %d:%s %s" % (g[0], g[1], w), (lambda c, g=g, w=w: part_symbolic(c, thorough, [g], [w]))))
@@ -163,7 +190,7 @@ def part_table(ctx):
     # cells: rounding of CELL to 6 decimals / integers, equal-parameter snapping
     rng = np.random.default_rng(ctx.seed)
     cells = [([10.0, 10.0, 10.0], [90.0, 90.0, 90.0]), ([5.0, 7.0, 9.0], [90.0, 101.5, 90.0]), ([3.1234567, 3.1234567, 12.0000004], [90.0, 90.0, 120.0]),
-             ([100.0, 1.5, 33.3333333], [60.0000001, 60.0, 60.0])]
+             ([100.0, 1.5, 33.3333333], [60.0000001, 60.0, 60.0]), ([15.0, 15.0001, 14.9999], [90.0, 90.0005, 90.0]), ([7.0, 7.00002, 9.0], [89.9995, 90.0, 120.0])]
     for _ in range(36):
         cells.append((list(np.round(rng.uniform(1, 100, 3), int(rng.integers(0, 8)))), list(np.round(rng.uniform(60, 119, 3), int(rng.integers(0, 8))))))
     badc = None
@@ -325,3 +352,43 @@ def _check_symbolic(c, c2, reg, fmt, F, ex, pc):
         if len(occ) != 2 or abs(float(occ[0]) - 1.0) > 1e-12 or abs(float(occ[1]) - 0.5) > 1e-12:
             return "occupancies changed"
     return None
+
+
+def part_parameters(ctx):
+    """UnitCell.parameters (what every writer prints) on symbolic lengths and angles: snapping of nearly equal values
+    moves no parameter by 2e-6 or more, for all cells"""
+    from ..symx import Explorer
+    ucm = load_shimmed("chmpy.crystal.unit_cell")
+    L = [Sym(z3.Real("len%d" % i)) for i in range(3)]
+    A = [Sym(z3.Real("ang%d" % i)) for i in range(3)]            # degrees
+    ucm.__dict__["np"].degrees = lambda x: np.array(A, dtype=object)
+    ex = Explorer(max_paths=20000)
+    ex.base = [z3.And(x.t >= 1, x.t <= 200) for x in L] + [z3.And(x.t >= 20, x.t <= 160) for x in A]
+
+    def body():
+        uc = ucm.UnitCell.__new__(ucm.UnitCell)
+        uc.lengths = list(L)
+        uc.angles = [0.0, 0.0, 0.0]
+        return ucm.UnitCell.parameters.fget(uc)
+    try:
+        paths = ex.run(body)
+    finally:
+        del ucm.__dict__["np"].degrees
+    ctx.add_paths(ex)
+    ctx.stub("parameters lemma: the angles in degrees are symbolic reals (np.degrees of the stored radians is replaced by them)")
+    bad = None
+    n = 0
+    for p in paths:
+        if p.exc is not None:
+            ctx.harness_error("UnitCell.parameters raised symbolically: %r" % (p.exc,))
+            return
+        out = list(p.value)
+        n += 1
+        goal = z3.And(*[z3.And((Sym._lift(out[i]) - want < Fraction(2, 10 ** 6)).t, (want - Sym._lift(out[i]) < Fraction(2, 10 ** 6)).t) for i, want in enumerate(L + A)])
+        r = ctx.query("parameters: path %d of %d (pattern of nearly-equal pairs): every reported length/angle within 2e-6 of the cell's" % (n, len(paths)), p.pc, goal, ex=ex, timeout=30)
+        if r.verdict == "cex":
+            mdl = r.model
+            bad = {"lengths": [float(symx.model_value(mdl, x.t)) for x in L], "angles": [float(symx.model_value(mdl, x.t)) for x in A]}
+            break
+    if bad:
+        ctx.violation("params:snap", "UnitCell.parameters moves a parameter by 2e-6 or more: cell %s %s" % (bad["lengths"], bad["angles"]), bad, replay_params)
